@@ -294,6 +294,162 @@ func oversizeCase(e *core.Env, ci int, r *core.RNG, S, batch string) {
 	rec.Class("%s>direct/batch=%q/oversize", S, batch)
 }
 
+// unsendableCase: bursts in which datagrams the relay cannot send on (the limited-broadcast address: EACCES; port 0:
+// EINVAL - both refused by the kernel whatever the routing table says) sit between datagrams for reachable targets, so
+// that a send batch (sendmmsg) stops part-way and has to be resumed behind the refused one. Every datagram for a
+// reachable target must arrive there exactly once and be answered; the refused ones must not stand in the way.
+func unsendableCase(e *core.Env, ci int, r *core.RNG, S, batch string) {
+	rec := e.Rec
+	ports := svx.FreePorts(1)
+	t := &svx.Topo{Dir: filepath.Join(e.WorkDir, fmt.Sprintf("unsendable-%d", ci))}
+	cfg := map[string]any{
+		"servers": []any{t.Server("A", S, ports[0], svx.ServerOpts{UDP: true, BatchMode: batch, TCP: strings.HasPrefix(S, "socks5")})},
+		"clients": []any{svx.Direct("direct")},
+	}
+	inst, err := svx.Start(svx.JSON(cfg))
+	if err != nil {
+		rec.Inconclusive("unsendable setup: " + err.Error())
+		return
+	}
+	defer inst.Stop(20 * time.Second)
+	viol := func(kind, format string, a ...any) {
+		rec.Violate("relay", ci, core.Sig("kind", kind, "part", "relay", "S", S, "C", "direct", "batch", batch, "scenario", "unsendable-in-burst"), map[string]any{"logs": inst.LogLines(12)}, format, a...)
+	}
+	nl := 1
+	if strings.HasPrefix(S, "socks5") {
+		nl = 2
+	}
+	if !inst.WaitLogs("relay service listener", nl, 40*time.Second) {
+		rec.Inconclusive("unsendable listeners")
+		return
+	}
+	down, err := svx.NewClient(svx.JSON(t.ClientFor("down", "A", S, ports[0], 0, false, true)))
+	if err != nil {
+		rec.Inconclusive("unsendable client")
+		return
+	}
+	var tgs [3]*svx.UDPTarget
+	for k := range tgs {
+		tg, err := svx.NewUDPTarget(fmt.Sprintf("U%d", k), fmt.Sprintf("127.0.0.%d", 2+k), 0)
+		if err != nil {
+			rec.Inconclusive("unsendable target")
+			return
+		}
+		defer tg.Close()
+		tgs[k] = tg
+	}
+	bad := []conn.Addr{
+		conn.AddrFromIPPort(netip.MustParseAddrPort("255.255.255.255:9")),
+		conn.AddrFromIPPort(netip.MustParseAddrPort("127.0.0.2:0")),
+		conn.AddrFromIPPort(netip.MustParseAddrPort("255.255.255.255:53")),
+	}
+	rounds := e.N(6, 40)
+	refused, delivered, maxRun := 0, 0, 0
+	for round := 0; round < rounds; round++ {
+		// a fresh session per round: while it is being set up, the burst queues behind the first datagram
+		p, err := down.NewUDPPeer("127.0.0.1")
+		if err != nil {
+			rec.Inconclusive("unsendable peer: " + err.Error())
+			return
+		}
+		n := r.Pick(3, 8, 17, 40)
+		want := map[string]int{} // payload -> target index
+		run := 0
+		for k := 0; k < n; k++ {
+			msg := fmt.Sprintf("u-%d-%d-%d", ci, round, k)
+			// the first datagram of a round is refused in a third of the rounds, the last one in another third
+			isBad := r.Chance(2, 5)
+			if k == 0 {
+				isBad = round%3 == 0
+			} else if k == n-1 && round%3 == 1 {
+				isBad = true
+			}
+			if isBad {
+				p.Send(bad[r.Intn(len(bad))], []byte(msg))
+				refused++
+				run++
+				maxRun = max(maxRun, run)
+				continue
+			}
+			run = 0
+			ti := r.Intn(3)
+			want[msg] = ti
+			p.Send(conn.AddrFromIPPort(tgs[ti].Addr), []byte(msg))
+		}
+		if !svx.Poll(30*time.Second, func() bool { return len(p.Got())+len(p.Errs()) >= len(want) }) {
+			arrived := 0
+			for _, tg := range tgs {
+				for _, d := range tg.Got() {
+					if _, ok := want[string(d.Payload)]; ok {
+						arrived++
+					}
+				}
+			}
+			viol("datagram_or_reply_lost", "round %d: %d datagrams for reachable targets were sent in a burst of %d (the others addressed to destinations the kernel refuses); %d reached their target, the client holds %d replies", round, len(want), n, arrived, len(p.Got()))
+			p.Close()
+			return
+		}
+		vtime.RealSleep(5 * time.Millisecond)
+		seen := map[string]int{}
+		for _, d := range p.Got() {
+			pl := string(d.Payload)
+			i := strings.IndexByte(pl, '|')
+			if i < 0 {
+				viol("foreign_reply_delivered", "round %d: the client received %q, which no target sent", round, core.Hex(d.Payload, 32))
+				p.Close()
+				return
+			}
+			msg := pl[i+1:]
+			ti, ok := want[msg]
+			if !ok || pl[:i] != fmt.Sprintf("U%d", ti) {
+				viol("sent_to_wrong_destination", "round %d: reply %q does not belong to a datagram this session addressed to that target", round, core.Hex(d.Payload, 40))
+				p.Close()
+				return
+			}
+			if d.From != tgs[ti].Addr {
+				viol("wrong_reply_source", "round %d: reply from U%d (%s) labelled with source %s", round, ti, tgs[ti].Addr, d.From)
+				p.Close()
+				return
+			}
+			seen[msg]++
+			if seen[msg] > 1 {
+				viol("datagram_duplicated", "round %d: datagram %q was answered twice (sent on twice?)", round, msg)
+				p.Close()
+				return
+			}
+		}
+		if len(p.Errs()) > 0 {
+			viol("reply_corrupted", "round %d: the client could not decode a reply: %s", round, p.Errs()[0])
+			p.Close()
+			return
+		}
+		delivered += len(want)
+		p.Close()
+	}
+	// every target holds exactly the datagrams addressed to it, each once
+	for x, tg := range tgs {
+		cnt := map[string]int{}
+		for _, d := range tg.Got() {
+			cnt[string(d.Payload)]++
+			if cnt[string(d.Payload)] > 1 {
+				viol("datagram_duplicated", "target U%d received datagram %q twice", x, core.Hex(d.Payload, 32))
+				return
+			}
+		}
+	}
+	// the fault has to have been observed by the relay itself, or the case decided nothing
+	failures := inst.CountLogs("Failed to batch write packets to natConn") + inst.CountLogs("Failed to write packet to natConn")
+	if failures == 0 {
+		rec.Inconclusive("unsendable: the relay logged no send failure (does this kernel accept the destinations?)")
+		return
+	}
+	rec.Count("unsendable_send_failures_logged_by_relay", int64(failures))
+	rec.Count("unsendable_refused_datagrams", int64(refused))
+	rec.Count("unsendable_delivered_datagrams", int64(delivered))
+	rec.Count("unsendable_longest_refused_run", int64(maxRun))
+	rec.Class("%s>direct/batch=%q/unsendable-in-burst", S, batch)
+}
+
 // payload = magic | session | seq | target tag(8) | filler
 func mkPayload(sess, seq int, tag string, n int) []byte {
 	b := make([]byte, 20, 20+n)
@@ -485,6 +641,20 @@ func runRelay(e *core.Env) {
 			rec.Eval()
 			r := core.NewRNG(e.Seed, "c11.ports", ci)
 			core.Guard(e, "relay", ci, func() { portsCase(e, ci, r, S, b) })
+		}
+	}
+	// send batches that stop part-way at a destination the kernel refuses
+	for _, S := range []string{"socks5", "none", "ss128"} {
+		for _, b := range []string{"", "no"} {
+			ci := k
+			k++
+			if e.Only >= 0 && e.Only != ci {
+				continue
+			}
+			rec.Begin("relay", ci, "unsendable "+S+" "+b)
+			rec.Eval()
+			r := core.NewRNG(e.Seed, "c11.unsendable", ci)
+			core.Guard(e, "relay", ci, func() { unsendableCase(e, ci, r, S, b) })
 		}
 	}
 	// client address family change (SS2022 sessions follow the client's latest address)
